@@ -17,7 +17,7 @@ open Nuts Nuts.C10 Nuts.C09
 
 /-- `NetworkDocumentValidator` composes exactly the W3C validator, the Nuts verification-method validator and the
     Nuts service validator, in this order (the model's `validate` folds over this list) -/
-theorem fact_network_validators : Facts.C09.networkValidators = [.w3c, .nutsVM, .nutsService] := by decide
+theorem fact_network_validators : Facts.C09.networkValidators = [.nilEntry, .w3c, .nutsVM, .nutsService] := by decide
 
 /-- `verifyDocumentEntryID` checks fragment, uniqueness, prefix — in this order (model: `entryIdErr`) -/
 theorem fact_entry_id_checks :
@@ -58,9 +58,10 @@ theorem fact_create_update_split :
     Facts.C09.isUpdateCriterion = "transaction.SigningKey() == nil" ∧
     Facts.C09.createBinding = "proposedDIDDocument.ID.ID != signingKeyThumbprint" := by decide
 
-/-- `callback`: integrity, unmarshal, validate, then update/create — in this order -/
+/-- `callback`: integrity, refusal of null key entries + unmarshal (one outcome class: the payload does not parse),
+    validate, then update/create — in this order -/
 theorem fact_callback_steps :
-    Facts.C09.callbackSteps = ["checkTransactionIntegrity", "json.Unmarshal", "NetworkDocumentValidator().Validate",
+    Facts.C09.callbackSteps = ["checkTransactionIntegrity", "resolver.RejectNullKeyEntries", "json.Unmarshal", "NetworkDocumentValidator().Validate",
       "n.isUpdate", "n.handleUpdateDIDDocument", "n.handleCreateDIDDocument"] := by decide
 
 /-- the ambassador touches the DID store only here: one `Add` at the end of each handler, two `Resolve`s in update -/
@@ -100,6 +101,12 @@ theorem fact_verifier_always_verifies :
     the comparison (model: `validateVMs` applies the thumbprint rule to every entry of `verificationMethod`) -/
 theorem fact_thumbprint_rule_for_every_type :
     Facts.C09.verifyThumbprintLooksAtType = false ∧ Facts.C09.verifyThumbprintSucceedsOnlyAtTheEnd = true := by decide
+
+/-- both Nuts validators hand the DOCUMENT's DID (not e.g. the method's `controller`) and the entry's own id to
+    `verifyDocumentEntryID` (model: `validateVMs … d.id d.vms`, `validateSvcs … d.id d.services`) -/
+theorem fact_entry_id_owner_is_document :
+    Facts.C09.vmEntryIdArguments = ["document.ID | method.ID.URI()"] ∧
+    Facts.C09.serviceEntryIdArguments = ["document.ID | service.ID"] := by decide
 
 /-- **Call sites.** `callback` is entered from the two subscriber functions only and is the only caller of the two
     handlers; the only other `Add` on the DID store in the package is the node's own publishing path
@@ -406,23 +413,23 @@ theorem validator_rules_each_necessary :
   simp only [nutsRules, List.mem_cons, List.mem_nil_iff, or_false] at hr
   rcases hr with rfl | rfl | rfl | rfl | rfl | rfl | rfl | rfl
   · exact ⟨wDoc [{ wKey with id := "did:nuts:a", frag := "", key := .key "" }] [], by decide,
-      fun h => (h.2.1 _ List.mem_cons_self).1 rfl⟩
-  · exact ⟨wDoc [wKey, wKey] [], by decide, fun h => by have := h.2.2.1; revert this; decide⟩
+      fun h => (h.2.2.1 _ List.mem_cons_self).1 rfl⟩
+  · exact ⟨wDoc [wKey, wKey] [], by decide, fun h => by have := h.2.2.2.1; revert this; decide⟩
   · exact ⟨wDoc [{ wKey with id := "did:nuts:b#k", pfx := "did:nuts:b" }] [], by decide,
-      fun h => by have := (h.2.1 _ List.mem_cons_self).2.1; revert this; decide⟩
+      fun h => by have := (h.2.2.1 _ List.mem_cons_self).2.1; revert this; decide⟩
   · exact ⟨wDoc [{ wKey with key := .key "other" }] [], by decide,
       fun h => by
-        obtain ⟨k, hk, ht⟩ := (h.2.1 _ List.mem_cons_self).2.2
+        obtain ⟨k, hk, ht⟩ := (h.2.2.1 _ List.mem_cons_self).2.2
         cases hk
         revert ht; decide⟩
   · exact ⟨wDoc [wKey] [wSvc "did:nuts:a" "" "t"], by decide,
-      fun h => (h.2.2.2.1 _ List.mem_cons_self).1 rfl⟩
+      fun h => (h.2.2.2.2.1 _ List.mem_cons_self).1 rfl⟩
   · exact ⟨wDoc [wKey] [wSvc "did:nuts:a#s" "s" "t1", wSvc "did:nuts:a#s" "s" "t2"], by decide,
-      fun h => by have := h.2.2.2.2.1; revert this; decide⟩
+      fun h => by have := h.2.2.2.2.2.1; revert this; decide⟩
   · exact ⟨wDoc [wKey] [{ wSvc "did:nuts:b#s" "s" "t" with pfx := "did:nuts:b" }], by decide,
-      fun h => by have := (h.2.2.2.1 _ List.mem_cons_self).2; revert this; decide⟩
+      fun h => by have := (h.2.2.2.2.1 _ List.mem_cons_self).2; revert this; decide⟩
   · exact ⟨wDoc [wKey] [wSvc "did:nuts:a#s1" "s1" "t", wSvc "did:nuts:a#s2" "s2" "t"], by decide,
-      fun h => by have := h.2.2.2.2.2; revert this; decide⟩
+      fun h => by have := h.2.2.2.2.2.2; revert this; decide⟩
 
 /-- The property text read literally — EVERY verification method of an accepted document, also one EMBEDDED in a
     verification relationship, has an id prefixed by the DID whose fragment is the key's thumbprint. -/
